@@ -278,6 +278,10 @@ impl EditState {
         let _undo = self.begin_atomic_undo(fl!(crate::LANGUAGE_LOADER, "undo-justify-left"));
         let sel = self.get_selection();
         if let Some(layer) = self.get_cur_layer_mut() {
+            if layer.properties.is_locked || !layer.properties.is_visible {
+                // like Layer::set_char: locked and hidden layers are not edited (undo/redo could not write them back)
+                return Ok(());
+            }
             let area = get_area(sel, layer.get_rectangle());
             if area.is_empty() {
                 return Ok(());
@@ -319,6 +323,10 @@ impl EditState {
         let _undo = self.begin_atomic_undo(fl!(crate::LANGUAGE_LOADER, "undo-justify-left"));
         let sel = self.get_selection();
         if let Some(layer) = self.get_cur_layer_mut() {
+            if layer.properties.is_locked || !layer.properties.is_visible {
+                // like Layer::set_char: locked and hidden layers are not edited (undo/redo could not write them back)
+                return Ok(());
+            }
             let area = get_area(sel, layer.get_rectangle());
             if area.is_empty() {
                 return Ok(());
@@ -359,6 +367,10 @@ impl EditState {
         let _undo = self.begin_atomic_undo(fl!(crate::LANGUAGE_LOADER, "undo-justify-left"));
         let sel = self.get_selection();
         if let Some(layer) = self.get_cur_layer_mut() {
+            if layer.properties.is_locked || !layer.properties.is_visible {
+                // like Layer::set_char: locked and hidden layers are not edited (undo/redo could not write them back)
+                return Ok(());
+            }
             let area = get_area(sel, layer.get_rectangle());
             if area.is_empty() {
                 return Ok(());
@@ -384,6 +396,10 @@ impl EditState {
         let _undo = self.begin_atomic_undo(fl!(crate::LANGUAGE_LOADER, "undo-justify-left"));
         let sel = self.get_selection();
         if let Some(layer) = self.get_cur_layer_mut() {
+            if layer.properties.is_locked || !layer.properties.is_visible {
+                // like Layer::set_char: locked and hidden layers are not edited (undo/redo could not write them back)
+                return Ok(());
+            }
             let area = get_area(sel, layer.get_rectangle());
             if area.is_empty() {
                 return Ok(());
